@@ -7,6 +7,7 @@ import (
 	"fmt"
 	"regexp"
 	"strconv"
+	"strings"
 )
 
 // Well-known metadata keys used in the vgi_rpc wire protocol.
@@ -123,4 +124,29 @@ func parseSemver(value string) (major, minor, patch int, err error) {
 	minor, _ = strconv.Atoi(m[2])
 	patch, _ = strconv.Atoi(m[3])
 	return major, minor, patch, nil
+}
+
+// semverComponents returns the MAJOR, MINOR and PATCH components of a
+// canonical semver string verbatim. Unlike parseSemver it never narrows a
+// component to a machine integer, so components beyond the int range stay
+// distinct (strconv.Atoi saturates on overflow).
+func semverComponents(value string) (parts [3]string, err error) {
+	m := semverRegex.FindStringSubmatch(value)
+	if m == nil {
+		_, _, _, err = parseSemver(value)
+		return parts, err
+	}
+	return [3]string{m[1], m[2], m[3]}, nil
+}
+
+// compareDecimal orders two canonical (no leading zeros) decimal strings
+// numerically: -1, 0 or +1.
+func compareDecimal(a, b string) int {
+	if len(a) != len(b) {
+		if len(a) < len(b) {
+			return -1
+		}
+		return 1
+	}
+	return strings.Compare(a, b)
 }
